@@ -117,13 +117,17 @@ class Sidecars:
                         key = self._const(d.args[0])
                         after = None
                         forget = []
+                        only = False
                         for kw in d.keywords:
                             if kw.arg == "after":
                                 after = ast.literal_eval(kw.value)
                             elif kw.arg == "forget":
                                 forget = ast.literal_eval(kw.value)
+                            elif kw.arg == "only":
+                                only = ast.literal_eval(kw.value)
                         holder = LoopAst(key, -1, [a.arg for a in node.args.args], _clauses(node), path)
                         holder.forget = forget
+                        holder.only = only
                         self.lemmas.setdefault(key, []).append((after, holder, node.name))
                 for d in node.decorator_list:
                     if isinstance(d, ast.Call) and isinstance(d.func, ast.Name) and d.func.id == "loop":
